@@ -30,7 +30,7 @@ EXPECTED_PROBES = ["annotate.write", "header.existing_header_merged", "header.sh
 SHRINK_CONTENT = True
 
 
-LONG_HOLDERS = [f"Contributor Number {i:03d} of the Very Long Named Organisation <contributor{i:03d}@example.org>" for i in range(60)]
+LONG_HOLDERS = A.LONG_HOLDERS
 
 
 def _case(seed, style, opts, bodykind, name, n, clocks, hashseed=0, extra_files=()):
@@ -158,6 +158,13 @@ def _gen_multi(seed, rng):
     if rng.chance(0.3):
         names.append("d9/data.json")
         files.append({"path": "d9/data.json", "content": "{}\n"})
+    if rng.chance(0.3):
+        # files that share a suffix but not a comment style (the style comes from the whole name)
+        group = rng.pick([["Cargo.lock", "yarn.lock", "poetry.lock"], ["CMakeLists.txt", "notes.txt"], ["go.mod", "other.mod"],
+                          ["setup.cfg", "tool.cfg"], ["Makefile", "Jenkinsfile", "ROOT"]])
+        for j, g in enumerate(group):
+            names.append(f"g{j}/{g}")
+            files.append({"path": f"g{j}/{g}", "content": "content of " + g + "\n"})
     steps = []
     clocks = _clocks(rng, 12)
     flavour = rng.pick(["holders", "holders", "case-variants", "merge-tie", "plain"])
@@ -176,6 +183,8 @@ def _gen_multi(seed, rng):
             steps.append({"argv": ["--no-multiprocessing"] + A.argv_of(so, [n]), "clock": clocks[ci], "phase": "setup"})
             ci += 1
     opts = {"holders": rng.sample(A.SAFE_HOLDERS, rng.randint(0, 2)), "licenses": rng.sample(A.LICENSES[:5], rng.randint(1, 2)), "years": ["2020"]}
+    if any(n.endswith((".txt", ".mod", ".cfg")) and not n.endswith(("CMakeLists.txt", "go.mod", "setup.cfg")) for n in names):
+        opts["fallback_dot_license"] = True  # unrecognised types among the files
     if flavour == "case-variants":
         opts["holders"] = [p[1] for p in CASE_PAIRS[:2]]
         opts["contributors"] = [CASE_PAIRS[2][1], CASE_PAIRS[0][1]]
